@@ -108,7 +108,7 @@ fn default_cfg128() -> TestMarketConfig<u128, 20> {
 macro_rules! imp {
     ($T:ty, $D:expr, $new:ident, $pools:ident, $digest:ident, $snap:ident, $op:ident, $W:expr, $def:expr) => {
         fn $new(x: &[u128]) -> Option<TestMarket<$T, $D>> {
-            if x.len() != 30 { return None; }
+            if x.len() != 30 && x.len() != 31 { return None; }
             let mut v: Vec<$T> = Vec::new();
             for a in x { v.push(<$T>::try_from(*a).ok()?); }
             if v[25] > 1 || v[28] > 1 || v[29] > 1 { return None; }
@@ -116,7 +116,7 @@ macro_rules! imp {
             let unit = <$T as gmsol_model::fixed::FixedPointOps<$D>>::UNIT;
             let config = TestMarketConfig::<$T, $D> {
                 swap_impact_params: PriceImpactParams::builder().exponent(v[0]).positive_factor(v[1]).negative_factor(v[2]).build(),
-                swap_fee_params: FeeParams::builder().positive_impact_fee_factor(v[3]).negative_impact_fee_factor(v[4]).fee_receiver_factor(v[5]).build(),
+                swap_fee_params: { let f = FeeParams::builder().positive_impact_fee_factor(v[3]).negative_impact_fee_factor(v[4]).fee_receiver_factor(v[5]).build(); if v.len() == 31 { f.with_discount_factor(v[30]) } else { f } },
                 position_impact_params: PriceImpactParams::builder().exponent(v[6]).positive_factor(v[7]).negative_factor(v[8]).build(),
                 order_fee_params: FeeParams::builder().positive_impact_fee_factor(v[9]).negative_impact_fee_factor(v[10]).fee_receiver_factor(v[11]).build(),
                 position_impact_distribution_params: PositionImpactDistributionParams::builder().distribute_factor(v[12]).min_position_impact_pool_amount(v[13]).build(),
@@ -306,7 +306,7 @@ impl Engine {
         if op == "new" {
             let nums: Option<Vec<u128>> = t[3..].iter().map(|s| s.parse::<u128>().ok()).collect();
             let Some(nums) = nums else { return "bad-op".into() };
-            if nums.len() != 32 { return "bad-op".into(); }
+            if nums.len() != 32 && nums.len() != 33 { return "bad-op".into(); }
             let m = match (nums[0], nums[1]) {
                 (64, 1_000_000_000) => new64(&nums[2..]).map(|m| AnyMarket::M64(Box::new(m))),
                 (128, 100_000_000_000_000_000_000) => new128(&nums[2..]).map(|m| AnyMarket::M128(Box::new(m))),
@@ -360,6 +360,8 @@ pub struct Cfg {
     pub funding_adj: u128,
     pub vi_swaps: bool,
     pub vi_positions: bool,
+    /// swap fee discount factor (`FeeParams::with_discount_factor`); 0 = not set (not rendered)
+    pub swap_fee_discount: u128,
 }
 
 impl Cfg {
@@ -370,20 +372,21 @@ impl Cfg {
             Cfg { w, unit: u, swap_impact: (2 * u, 4, 8), swap_fee: (500_000, 700_000, 370_000_000), pos_impact: (2 * u, 1, 2),
                 order_fee: (500_000, 700_000, 370_000_000), dist_factor: u, min_pip: u, borrow_recv: 370_000_000, reserve: u, oi_reserve: u,
                 pnl: (600_000_000, 300_000_000, 500_000_000, 500_000_000, 0), max_pool_amount: u * u, max_pool_value: u64::MAX as u128,
-                max_oi: u64::MAX as u128, ignore_oi: false, divisor: 1, funding_adj: 10_000, vi_swaps: false, vi_positions: false }
+                max_oi: u64::MAX as u128, ignore_oi: false, divisor: 1, funding_adj: 10_000, vi_swaps: false, vi_positions: false, swap_fee_discount: 0 }
         } else {
             let u = 100_000_000_000_000_000_000u128;
             Cfg { w, unit: u, swap_impact: (2 * u, 400_000_000_000, 800_000_000_000), swap_fee: (u / 2000, u / 10000 * 7, u / 100 * 37),
                 pos_impact: (2 * u, 100_000_000_000, 200_000_000_000), order_fee: (u / 2000, u / 10000 * 7, u / 100 * 37),
                 dist_factor: u, min_pip: 1_000_000_000, borrow_recv: u / 100 * 37, reserve: u, oi_reserve: u,
                 pnl: (u / 10 * 6, u / 10 * 3, u / 2, u / 2, 0), max_pool_amount: 1_000_000_000 * u, max_pool_value: 1_000_000_000_000_000 * u,
-                max_oi: 1_000_000_000 * u, ignore_oi: false, divisor: 100_000_000_000, funding_adj: 10_000_000_000, vi_swaps: false, vi_positions: false }
+                max_oi: 1_000_000_000 * u, ignore_oi: false, divisor: 100_000_000_000, funding_adj: 10_000_000_000, vi_swaps: false, vi_positions: false, swap_fee_discount: 0 }
         }
     }
 
     pub fn new_req(&self, sid: &str) -> String {
         let b = |x: bool| if x { 1 } else { 0 };
-        format!("mkt new {sid} {} {} {} {} {} {} {} {} {} {} {} {} {} {} {} {} {} {} {} {} {} {} {} {} {} {} {} {} {} {} {} {}",
+        let tail = if self.swap_fee_discount != 0 { format!(" {}", self.swap_fee_discount) } else { String::new() };
+        format!("mkt new {sid} {} {} {} {} {} {} {} {} {} {} {} {} {} {} {} {} {} {} {} {} {} {} {} {} {} {} {} {} {} {} {} {}{tail}",
             self.w, self.unit, self.swap_impact.0, self.swap_impact.1, self.swap_impact.2, self.swap_fee.0, self.swap_fee.1, self.swap_fee.2,
             self.pos_impact.0, self.pos_impact.1, self.pos_impact.2, self.order_fee.0, self.order_fee.1, self.order_fee.2,
             self.dist_factor, self.min_pip, self.borrow_recv, self.reserve, self.oi_reserve, self.pnl.0, self.pnl.1, self.pnl.2, self.pnl.3, self.pnl.4,
